@@ -48,12 +48,14 @@ example :
     let result : Option Ent := some ⟨1, [("b", 2)]⟩
     shallowEq result old = true ∧ [result] ≠ [old] := by decide
 
-/-- A polling scan that fails (the root cannot be opened) strobes the poll
-signal and leaves acceleration off; the loop goes on polling (`Step.tick` /
-`Step.tickFail` are enabled in every state). -/
+/-- A polling scan that fails (the root cannot be opened) owes a strobe — the
+polling goroutine issues it right after releasing the scan lock, and the signal
+is pending once it is delivered — and leaves acceleration off; the loop goes on
+polling (`Step.tick` / `Step.tickFail` are enabled in every state). -/
 theorem failed_poll_scan_strobes (s : St) :
-    (tickFail s).pending = true ∧ (tickFail s).accelerate = false ∧ (tickFail s).snapshot = s.snapshot := by
-  simp [tickFail, strobe]
+    (tickFail s).owed = true ∧ (deliver (tickFail s)).pending = true ∧
+    (tickFail s).accelerate = false ∧ (tickFail s).snapshot = s.snapshot := by
+  simp [tickFail, owe, deliver, strobe]
 
 /-- **No stale snapshot after a changing transition.** In every run, whatever
 happens between the end of a transition that changed the disk and a later
@@ -91,19 +93,23 @@ theorem unaccelerated_scan_is_current (s : St) (full : Bool) (h : ¬ (s.accelera
     (scan s full).2 = ⟨s.disk, s.ver⟩ := by
   rw [scan_fresh h]
 
-/-- **Every modification seen by a polling scan strobes.** -/
+/-- **Every modification seen by a polling scan strobes.** The scan (under the
+scan lock) leaves the strobe owed; the polling goroutine issues it next, and
+then the signal is pending. -/
 theorem poll_scan_strobes (s : St) (hmod : s.disk ≠ tickBaseline s) (hign : tickIgnore s = false) :
-    (tick s).pending = true ∧ (tick s).strobed = true := by
+    (tick s).owed = true ∧ (deliver (tick s)).pending = true ∧ (deliver (tick s)).strobed = true := by
   rw [tick_eq]
-  simp [hmod, hign, strobe]
+  simp [hmod, hign, owe, deliver, strobe]
 
 /-- **No silent divergence** (with fixes/C42.patch). In every reachable state:
 if the endpoint's most recent snapshot differs from the one the last `Scan`
-handed to the controller, a strobe has been issued since that `Scan`; and a
+handed to the controller, a strobe has been issued since that `Scan` or is owed
+by the polling goroutine (decided under the scan lock, issued next); and a
 strobe issued since the last `Scan` is still pending or has been delivered by
 `Poll` since. -/
 theorem no_silent_divergence {a : Bool} {d : Nat} {tr : List Label} {s : St} (h : Run (init true a d) tr s) :
-    (∀ sn v, s.snapshot = some sn → s.view = some v → sn.content ≠ v.content → s.strobed = true) ∧
+    (∀ sn v, s.snapshot = some sn → s.view = some v → sn.content ≠ v.content →
+      s.strobed = true ∨ s.owed = true) ∧
     (s.strobed = true → s.pending = true ∨ s.consumed = true) := by
   have i : Inv s := inv_run (inv_init true a d) h
   have hr : s.repaired = true := by rw [repaired_run h]; rfl
@@ -117,14 +123,23 @@ synchronization just did — then after the next polling scan a strobe has been
 issued since that `Scan`, and its signal is pending or was already delivered. -/
 theorem modification_announced_by_next_poll {a : Bool} {d : Nat} {tr : List Label} {s : St} {v : Snap}
     (h : Run (init true a d) tr s) (hb : s.broken = false) (hv : s.view = some v) (hne : s.disk ≠ v.content) :
-    (tick s).strobed = true ∧ ((tick s).pending = true ∨ (tick s).consumed = true) := by
-  have h' : Run (init true a d) (tr ++ [.tick]) (tick s) := Run.snoc h (Step.tick s hb)
+    (deliver (tick s)).strobed = true ∧
+    ((deliver (tick s)).pending = true ∨ (deliver (tick s)).consumed = true) := by
+  have h' : Run (init true a d) (tr ++ [.tick] ++ [.deliver]) (deliver (tick s)) :=
+    Run.snoc (Run.snoc h (Step.tick s hb)) (Step.deliver _)
   obtain ⟨hd, hp⟩ := no_silent_divergence h'
-  have hsnap : (tick s).snapshot = some ⟨s.disk, s.ver⟩ := by
-    rw [tick_eq]; split <;> simp [strobe, tickCore]
-  have hview : (tick s).view = some v := by
-    rw [tick_eq]; split <;> simp [strobe, tickCore, hv]
-  have hs := hd _ _ hsnap hview hne
+  have hsnap : (deliver (tick s)).snapshot = some ⟨s.disk, s.ver⟩ := by
+    unfold deliver; rw [tick_eq]; split <;> split <;> simp_all [strobe, owe, tickCore]
+  have hview : (deliver (tick s)).view = some v := by
+    unfold deliver; rw [tick_eq]; split <;> split <;> simp_all [strobe, owe, tickCore]
+  have howed : (deliver (tick s)).owed = false := by
+    unfold deliver; split
+    · simp [strobe]
+    · rename_i hx; simpa using hx
+  have hs : (deliver (tick s)).strobed = true := by
+    rcases hd _ _ hsnap hview hne with h1 | h1
+    · exact h1
+    · rw [howed] at h1; simp at h1
   exact ⟨hs, hp hs⟩
 
 /-! ## The upstream behaviour violates the second half of the property
@@ -137,7 +152,7 @@ with the polling goroutine's own previous scan (content 1) and stays silent:
 the disk (1) differs from what the controller saw (2) and nothing announces it. -/
 
 example : upstreamFinal.disk = 1 ∧ upstreamFinal.view = some ⟨2, 1⟩ ∧
-    upstreamFinal.strobed = false ∧ upstreamFinal.pending = false := by decide
+    upstreamFinal.strobed = false ∧ upstreamFinal.pending = false ∧ upstreamFinal.owed = false := by decide
 
 /-- … and it is a run of the unrepaired model. -/
 example : Run (init false true 1) upstreamTrace upstreamFinal := by
@@ -165,6 +180,7 @@ example :
     let s := (pollReturn s).getD s
     let s := (scan s false).1
     let s := edit s 1
-    s.view = some ⟨2, 1⟩ ∧ s.disk ≠ 2 ∧ (tick s).strobed = true ∧ (tick s).pending = true := by decide
+    s.view = some ⟨2, 1⟩ ∧ s.disk ≠ 2 ∧ (deliver (tick s)).strobed = true ∧
+      (deliver (tick s)).pending = true := by decide
 
 end Mutagen.Properties.C42
